@@ -15,7 +15,7 @@
 // token canonically (Quote, ToString) and compares the result with the
 // prescribed text.  Equal: the text denotes the same value with the same
 // gap/indentation shape (counted as spelling_only).  Different: violation.
-// The harness also produces random numbers and strings, serialises and parses
+// The harness also draws random numbers and strings, serialises and re-parses
 // them on otto and lets TLC judge the recorded results.
 package c11
 
@@ -78,11 +78,11 @@ function ENC(v){
 function ENCOBJ(v){
   var cls = Object.prototype.toString.call(v);
   if (cls === "[object Array]") {
-    var items = [];
-    for (var i = 0; i < v.length; i++) items.push((i in v) ? ENCV(v[i]) : {t:"hole"});
+    var items = [], present = 0;
+    for (var i = 0; i < v.length; i++) { if (i in v) { present++; items.push(ENCV(v[i])); } else items.push({t:"hole"}); }
     var r = {t:"arr", items:items};
     if (Object.getPrototypeOf(v) !== Array.prototype) r.proto = "other";
-    if (Object.keys(v).length !== items.length) { var holes = 0; for (var h = 0; h < v.length; h++) if (!(h in v)) holes++; if (Object.keys(v).length + holes !== items.length) r.extra = Object.keys(v).length; }
+    if (Object.keys(v).length !== present) r.extra = Object.keys(v).length - present;
     return r;
   }
   if (cls === "[object Object]") {
@@ -145,6 +145,14 @@ function RUN11(src){
 }
 `
 
+// adapter mutants for the binding self-test: a deliberately wrong JSON object
+var mutants = []struct{ Name, JS string }{
+	{"parse accepts a trailing comma in arrays", `(function(){ var P = JSON.parse; JSON.parse = function(t, r){ if (typeof t === "string") t = t.replace(/,(\s*)\]/, "$1]"); return arguments.length > 1 ? P(t, r) : P(t); }; })();`},
+	{"parse accepts a leading plus sign", `(function(){ var P = JSON.parse; JSON.parse = function(t, r){ if (typeof t === "string" && t.charAt(0) === "+") t = t.substring(1); return arguments.length > 1 ? P(t, r) : P(t); }; })();`},
+	{"stringify does not limit the gap to 10", `(function(){ var S = JSON.stringify; JSON.stringify = function(v, r, s){ if (typeof s === "number" && s > 10) s = "           "; if (typeof s === "string" && s.length > 10) { var x = S(v, r, s.substring(0, 10)); return x === undefined ? x : x.split(s.substring(0, 10)).join(s); } return S(v, r, s); }; })();`},
+	{"stringify keeps undefined members as null", `(function(){ var S = JSON.stringify; JSON.stringify = function(v, r, s){ if (v && typeof v === "object" && !(v instanceof Array) && r === undefined) { for (var k in v) if (v[k] === undefined) { var c = {}; for (var q in v) c[q] = v[q] === undefined ? null : v[q]; return S(c, r, s); } } return S(v, r, s); }; })();`},
+}
+
 // Line is one generated case.
 type Line struct {
 	Fam string            `json:"fam"`
@@ -165,8 +173,9 @@ type outcome struct {
 }
 
 type vmBox struct {
-	vm   *otto.Otto
-	used int
+	vm    *otto.Otto
+	used  int
+	extra string // adapter mutant (self-test only)
 }
 
 var (
@@ -175,7 +184,7 @@ var (
 	scriptErr  error
 )
 
-func newVM() (*otto.Otto, error) {
+func newVM(extra string) (*otto.Otto, error) {
 	vm := otto.New()
 	if err := vm.Set("NUMENC", func(call otto.FunctionCall) otto.Value {
 		f, _ := call.Argument(0).ToFloat()
@@ -191,6 +200,11 @@ func newVM() (*otto.Otto, error) {
 	if _, err := vm.Run(script); err != nil {
 		return nil, fmt.Errorf("prelude run: %v", err)
 	}
+	if extra != "" {
+		if _, err := vm.Run(extra); err != nil {
+			return nil, fmt.Errorf("mutant: %v", err)
+		}
+	}
 	return vm, nil
 }
 
@@ -204,7 +218,7 @@ func (b *vmBox) eval(src string, consts map[string]float64) (out string, err err
 		}
 	}()
 	if b.vm == nil || b.used >= perVM {
-		vm, e := newVM()
+		vm, e := newVM(b.extra)
 		if e != nil {
 			return "", e
 		}
@@ -232,16 +246,22 @@ func same(a string, b json.RawMessage) bool {
 	return reflect.DeepEqual(x, y)
 }
 
-// a stringify result waiting for the judge
-type pending struct {
-	ID    int     `json:"id"`
-	Got   []int   `json:"got"`
-	Want  [][]int `json:"want"` // prescribed text first, then the texts under open findings
-	src   string
-	cse   json.RawMessage
-	out   string
-	exp   json.RawMessage
-	nwant int
+// jrec is one line of the judge's input (trace.ndjson).
+//   kind "text": got = observed text, want = prescribed text followed by the texts permitted under open findings
+//   kind "num" : n = a double, got = observed JSON.stringify(n), back = projection of JSON.parse(got) observed
+//   kind "str" : s = a string, got, back likewise
+type jrec struct {
+	ID   int             `json:"id"`
+	Kind string          `json:"kind"`
+	Got  []int           `json:"got"`
+	Want [][]int         `json:"want,omitempty"`
+	N    *num.N          `json:"n,omitempty"`
+	S    *[]int          `json:"s,omitempty"`
+	Back json.RawMessage `json:"back,omitempty"`
+
+	src, out string
+	cse, exp json.RawMessage
+	control  int // expected verdict + 1 for control entries
 }
 
 // textCandidate: both outcomes are normal completions with a string value and
@@ -278,26 +298,48 @@ type checker struct {
 	n       counters
 	mu      sync.Mutex
 	samples []any
-	queue   []*pending
+	queue   []*jrec
 	qkeys   map[string]bool
 	byFam   map[string]int64
+	kept    [][]byte // generated lines kept for the binding self-test
 }
 
-func judgeCfg() string {
-	return "INIT Init\nNEXT Next\nINVARIANT Emit\nCHECK_DEADLOCK FALSE\n"
-}
-
-func (k *checker) enqueue(p *pending) {
+func (k *checker) enqueue(p *jrec) {
 	key := fmt.Sprint(p.Got, "|", p.Want)
 	k.mu.Lock()
 	defer k.mu.Unlock()
-	if k.qkeys[key] {
-		atomic.AddInt64(&k.n.spelling, 0)
-		return
+	if p.Kind == "text" && p.control == 0 {
+		if k.qkeys[key] {
+			return
+		}
+		k.qkeys[key] = true
 	}
-	k.qkeys[key] = true
 	p.ID = len(k.queue) + 1
 	k.queue = append(k.queue, p)
+}
+
+// classify evaluates src and classifies the outcome against the line:
+// "conform", "dev", "text" (needs the judge), "panic", "mismatch".
+func classify(box *vmBox, l *Line, src string, consts map[string]float64) (string, string, error) {
+	out, err := box.eval(src, consts)
+	if err != nil {
+		if strings.HasPrefix(err.Error(), "GO PANIC") {
+			return "panic", err.Error(), nil
+		}
+		return "", "", err
+	}
+	if same(out, l.Exp) {
+		return "conform", out, nil
+	}
+	for _, d := range l.Dev {
+		if same(out, d) {
+			return "dev", out, nil
+		}
+	}
+	if _, _, ok := textCandidate(out, l.Exp); ok {
+		return "text", out, nil
+	}
+	return "mismatch", out, nil
 }
 
 // handle evaluates one generated case.
@@ -309,6 +351,9 @@ func (k *checker) handle(box *vmBox, raw []byte) error {
 	n := atomic.AddInt64(&k.n.cases, 1)
 	k.mu.Lock()
 	k.byFam[l.Fam]++
+	if len(k.kept) < 6000 && (n%3 == 0 || l.Fam == "str") {
+		k.kept = append(k.kept, raw)
+	}
 	k.mu.Unlock()
 	src, consts, err := gen.Render(l.Js)
 	if err != nil {
@@ -320,13 +365,14 @@ func (k *checker) handle(box *vmBox, raw []byte) error {
 	}
 	for r := 0; r < rep; r++ {
 		atomic.AddInt64(&k.n.evals, 1)
-		out, err := box.eval(src, consts)
-		if err != nil && !strings.HasPrefix(err.Error(), "GO PANIC") {
+		cls, out, err := classify(box, &l, src, consts)
+		if err != nil {
 			return err
 		}
-		if err == nil && same(out, l.Exp) {
+		switch cls {
+		case "conform":
 			atomic.AddInt64(&k.n.conform, 1)
-			if n%997 == 1 && r == 0 {
+			if n%499 == 1 && r == 0 {
 				k.mu.Lock()
 				if len(k.samples) < 8 {
 					k.samples = append(k.samples, map[string]any{"js": src, "expected": l.Exp})
@@ -334,56 +380,35 @@ func (k *checker) handle(box *vmBox, raw []byte) error {
 				k.mu.Unlock()
 			}
 			continue
-		}
-		if err == nil {
-			hit := false
-			for _, d := range l.Dev {
-				if same(out, d) {
-					hit = true
-					break
-				}
-			}
-			if hit {
-				atomic.AddInt64(&k.n.dev, 1)
-				k.c.Hit("deviation")
-				continue
-			}
+		case "dev":
+			atomic.AddInt64(&k.n.dev, 1)
+			k.c.Hit("deviation")
+			continue
+		case "text":
 			// a text that differs from the prescribed one: let the specification read it
-			if got, exp, ok := textCandidate(out, l.Exp); ok {
-				p := &pending{Got: got, Want: [][]int{exp}, src: src, cse: l.C, out: out, exp: l.Exp}
-				for _, d := range l.Dev {
-					if g2, e2, ok2 := textCandidate(out, d); ok2 {
-						_ = g2
-						p.Want = append(p.Want, e2)
-					}
+			got, exp, _ := textCandidate(out, l.Exp)
+			p := &jrec{Kind: "text", Got: got, Want: [][]int{exp}, src: src, cse: l.C, out: out, exp: l.Exp}
+			for _, d := range l.Dev {
+				if _, e2, ok2 := textCandidate(out, d); ok2 {
+					p.Want = append(p.Want, e2)
 				}
-				k.enqueue(p)
-				continue
 			}
+			k.enqueue(p)
+			continue
 		}
 		// reproduce on a fresh runtime before reporting
-		fresh := &vmBox{}
-		out2, err2 := fresh.eval(src, consts)
-		if (err == nil) != (err2 == nil) || out2 != out {
-			ok2 := err2 == nil && same(out2, l.Exp)
-			for _, d := range l.Dev {
-				ok2 = ok2 || (err2 == nil && same(out2, d))
-			}
-			if ok2 {
+		cls2, out2, err := classify(&vmBox{}, &l, src, consts)
+		if err != nil {
+			return err
+		}
+		if cls2 != cls || out2 != out {
+			if cls2 == "conform" || cls2 == "dev" {
 				k.c.Note("case conforms on a fresh runtime but not on a reused one: %s", src)
-				atomic.AddInt64(&k.n.skipped, 1)
-				continue
 			}
-			if err2 == nil && err != nil {
-				atomic.AddInt64(&k.n.skipped, 1)
-				continue
-			}
-			out, err = out2, err2
+			atomic.AddInt64(&k.n.skipped, 1)
+			continue
 		}
 		detail := fmt.Sprintf("%s  =>  implementation %s ; specification %s", src, trunc(out, 300), trunc(string(l.Exp), 300))
-		if err != nil {
-			detail = fmt.Sprintf("%s  =>  %v ; specification %s", src, err, trunc(string(l.Exp), 300))
-		}
 		k.c.Violate(detail, map[string]any{"js": src, "consts": consts, "case": l.C, "observed": out, "expected": l.Exp, "permitted_under_open_findings": l.Dev})
 		break
 	}
@@ -413,13 +438,13 @@ func Check(c *core.Ctx) (map[string]any, []string, error) {
 		runs = []runCfg{
 			{Name: "explicit-families(deep domain)", Cfg: genCfg(c, "list", 0, true)},
 			{Name: "single-mutations(all base texts)", Cfg: genCfg(c, "mut", 0, true)},
-			{Name: "double-mutations(random 400 per position)", Cfg: genCfg(c, "mut2", 400, true), Seed: c.Seed},
+			{Name: "double-mutations(random 300 per position)", Cfg: genCfg(c, "mut2", 300, true), Seed: c.Seed},
 		}
 	} else {
 		runs = []runCfg{
 			{Name: "explicit-families", Cfg: genCfg(c, "list", 0, false)},
 			{Name: "single-mutations", Cfg: genCfg(c, "mut", 0, false)},
-			{Name: "double-mutations(random 12 per position)", Cfg: genCfg(c, "mut2", 12, false), Seed: c.Seed},
+			{Name: "double-mutations(random 10 per position)", Cfg: genCfg(c, "mut2", 10, false), Seed: c.Seed},
 		}
 	}
 	ch := make(chan []byte, 8192)
@@ -467,13 +492,12 @@ func Check(c *core.Ctx) (map[string]any, []string, error) {
 	if err := k.randomRecords(); err != nil {
 		return nil, nil, err
 	}
+	k.controls()
 	jstat, err := k.judge()
 	if err != nil {
 		return nil, nil, err
 	}
-	if jstat != nil {
-		tlcStats = append(tlcStats, jstat)
-	}
+	tlcStats = append(tlcStats, jstat)
 	selftest, err := k.selfTest()
 	if err != nil {
 		return nil, nil, err
@@ -488,38 +512,56 @@ func Check(c *core.Ctx) (map[string]any, []string, error) {
 		k.samples = append(k.samples, "no conforming case sampled")
 	}
 	cov := map[string]any{
-		"states": states, "transitions": trans, "traces_validated_against_impl": k.n.evals,
+		"states": states, "transitions": trans, "traces_validated_against_impl": k.n.evals + k.n.rand,
 		"samples": k.samples, "tlc_runs": tlcStats,
 		"cases": k.n.cases, "cases_by_family": k.byFam, "evaluations": k.n.evals,
 		"conforming": k.n.conform, "conforming_to_known_deviation": k.n.dev, "non_reproducible_skipped": k.n.skipped,
 		"judged_by_specification": k.n.judged, "judged_spelling_only": k.n.spelling, "random_records_judged": k.n.rand,
 		"binding_self_test": selftest,
-		"rule": "one case per TLC state of the generator module; parse cases of the explicit families are evaluated twice (member order must be stable)",
+		"rule": "one case per TLC state of the generator module; parse cases of the explicit families are evaluated twice (member order must be stable); judged = observed texts / recorded round trips re-read by the specification",
 	}
 	assume := []string{
 		"trusted: the JavaScript-side outcome projection (prelude of harness/internal/c11: ENC/ENCOBJ/SER, RUN11 via indirect eval; it does not use the implementation's JSON object), the evaluation of string literals with \\uXXXX escapes and of object construction by assignment on otto, Go float64 bit projection, TLC",
 		"stringify results are judged as JSON texts: equal to the prescribed text after canonical respelling of string and number tokens by the specification's own recogniser (C11Judge.tla); the gap families contain no quote, digit or minus characters",
 		"member order of a model object = insertion order = Object.keys order of otto (ES5 leaves for-in order to the implementation)",
-		"lone surrogates only in a small dedicated family; object keys without surrogates above U+DFFF mixed with astral keys (UTF-8 and UTF-16 orders differ there)",
+		"lone surrogates only in a small dedicated family; object keys mix no astral character with a BMP character above U+DFFF (UTF-8 and UTF-16 orders differ there)",
 	}
 	return cov, assume, nil
 }
 
-// judge runs C11Judge over the queued texts.
-func (k *checker) judge() (map[string]any, error) {
-	if len(k.queue) == 0 {
-		return nil, nil
+// controls adds entries with a known verdict to every judge run (the judge
+// itself is checked: it must accept a respelling and reject a different value).
+func (k *checker) controls() {
+	u := func(s string) []int {
+		r := []int{}
+		for _, c := range s {
+			r = append(r, int(c))
+		}
+		return r
 	}
+	k.enqueue(&jrec{Kind: "text", Got: u(`{"a":"<","b":[1.0,2e0]}`), Want: [][]int{u(`{"a":"<","b":[1,2]}`)}, control: 2})
+	k.enqueue(&jrec{Kind: "text", Got: u(`{"a":"<","b":[1,3]}`), Want: [][]int{u(`{"a":"<","b":[1,2]}`)}, control: 1})
+	k.enqueue(&jrec{Kind: "text", Got: u(`{"b":[1,2],"a":"<"}`), Want: [][]int{u(`{"a":"<","b":[1,2]}`)}, control: 1})
+	k.enqueue(&jrec{Kind: "text", Got: u("[\n 1\n]"), Want: [][]int{u("[\n  1\n]")}, control: 1})
+	k.enqueue(&jrec{Kind: "text", Got: u(`[01]`), Want: [][]int{u(`[1]`)}, control: 1})
+	k.enqueue(&jrec{Kind: "text", Got: u(`["\x"]`), Want: [][]int{u(`["x"]`)}, control: 1})
+}
+
+// judge runs C11Judge over the queued records.
+func (k *checker) judge() (map[string]any, error) {
 	var sb strings.Builder
 	for _, p := range k.queue {
+		if p.Got == nil {
+			p.Got = []int{}
+		}
 		b, _ := json.Marshal(p)
 		sb.Write(b)
 		sb.WriteByte('\n')
 	}
 	verdict := map[int]int{}
 	var mu sync.Mutex
-	o := tlc.Opts{SpecDir: k.c.SpecDir, Module: "C11Judge", Cfg: judgeCfg(), Workers: k.c.Workers, Timeout: 30 * time.Minute,
-		Files: map[string][]byte{"trace.ndjson": []byte(sb.String())}}
+	o := tlc.Opts{SpecDir: k.c.SpecDir, Module: "C11Judge", Cfg: "INIT Init\nNEXT Next\nINVARIANT Emit\nCHECK_DEADLOCK FALSE\n",
+		Workers: k.c.Workers, Timeout: 30 * time.Minute, Files: map[string][]byte{"trace.ndjson": []byte(sb.String())}}
 	res, err := tlc.Run(o, func(p []byte) {
 		var v struct {
 			ID int `json:"id"`
@@ -539,21 +581,26 @@ func (k *checker) judge() (map[string]any, error) {
 		if !ok {
 			return nil, fmt.Errorf("judge returned no verdict for entry %d", p.ID)
 		}
+		if p.control != 0 {
+			if m != p.control-1 {
+				return nil, fmt.Errorf("judge control entry %q: verdict %d, expected %d", jsx.UnitsString(p.Got), m, p.control-1)
+			}
+			continue
+		}
 		atomic.AddInt64(&k.n.judged, 1)
 		switch {
-		case m == 1:
+		case m == 1 && p.Kind == "text":
 			atomic.AddInt64(&k.n.spelling, 1)
+		case m == 1:
 		case m > 1:
 			atomic.AddInt64(&k.n.dev, 1)
 			k.c.Hit("deviation")
+		case p.Kind != "text":
+			b, _ := json.Marshal(p)
+			k.c.Violate(fmt.Sprintf("recorded round trip rejected by the specification: JSON.stringify gave %q; record %s", trunc(jsx.UnitsString(p.Got), 200), trunc(string(b), 400)),
+				map[string]any{"record": p})
 		default:
-			if p.src == "" { // random record
-				k.c.Violate(fmt.Sprintf("recorded result rejected by the specification: text %q does not denote the prescribed %q", jsx.UnitsString(p.Got), jsx.UnitsString(p.Want[0])),
-					map[string]any{"observed_text_units": p.Got, "prescribed_text_units": p.Want})
-				continue
-			}
-			fresh := &vmBox{}
-			out2, err2 := fresh.eval(p.src, nil)
+			out2, err2 := (&vmBox{}).eval(p.src, nil)
 			if err2 != nil || out2 != p.out {
 				atomic.AddInt64(&k.n.skipped, 1)
 				continue
@@ -562,51 +609,51 @@ func (k *checker) judge() (map[string]any, error) {
 				map[string]any{"js": p.src, "case": p.cse, "observed": p.out, "expected": p.exp})
 		}
 	}
-	return map[string]any{"config": "judge(C11Judge: observed texts re-read by the specification)", "generated": res.Generated, "distinct": res.Distinct, "lines": res.Lines, "wall_s": res.Wall}, nil
+	return map[string]any{"config": "judge(C11Judge: observed texts and recorded round trips re-read by the specification)", "generated": res.Generated, "distinct": res.Distinct, "lines": res.Lines, "wall_s": res.Wall}, nil
 }
 
 // randomRecords: harness-generated doubles and strings are serialised and
-// parsed on otto; the records are judged by the specification:
-//   stringify(x) must (re)spell to the text the specification prescribes for x
-// where the prescription is computed in TLC from the exact value (C11Judge
-// kind "num"/"str"), and parse(text) must be the value the specification reads.
+// re-parsed on otto; TLC judges the records: the text must (re)spell to what
+// 15.12.3 prescribes for the value, the specification's recogniser must read
+// the value back from it, and so must the implementation (round trip).
 func (k *checker) randomRecords() error {
-	n := 300
+	n := 400
 	if k.c.Thorough() {
-		n = 4000
+		n = 6000
 	}
 	rng := rand.New(rand.NewSource(k.c.Seed))
-	vm, err := newVM()
+	vm, err := newVM("")
 	if err != nil {
 		return err
 	}
 	for i := 0; i < n; i++ {
 		var lit string
-		var want map[string]any
+		rec := &jrec{}
 		if i%2 == 0 {
 			var f float64
-			switch rng.Intn(4) {
+			switch rng.Intn(5) {
 			case 0:
 				f = math.Float64frombits(rng.Uint64())
 			case 1:
 				f = float64(rng.Int63n(1<<53)) * math.Pow(10, float64(rng.Intn(40)-20))
 			case 2:
 				f = math.Round(rng.NormFloat64()*1e6) / 1e3
+			case 3:
+				f = float64(rng.Int63n(1<<40)) - float64(int64(1)<<39)
 			default:
-				f = float64(rng.Int63n(1 << 40))
+				f = math.Float64frombits(0x3ff0000000000000 + uint64(rng.Int63n(1<<52))) // [1,2)
 			}
-			if math.IsNaN(f) || math.IsInf(f, 0) || (f != 0 && (math.Abs(f) > 1e140 || math.Abs(f) < 1e-140)) {
-				f = float64(rng.Intn(1000)) / 8
+			if math.IsNaN(f) || math.IsInf(f, 0) || (f != 0 && (math.Abs(f) > 1e120 || math.Abs(f) < 1e-120)) {
+				f = float64(rng.Intn(100000)) / 64
 			}
 			if err := vm.Set("RX", f); err != nil {
 				return err
 			}
 			lit = "RX"
 			nn := num.Of(f)
-			want = map[string]any{"k": "num", "n": nn}
+			rec.Kind, rec.N = "num", &nn
 		} else {
-			ln := rng.Intn(6)
-			units := make([]int, ln)
+			units := make([]int, rng.Intn(7))
 			for j := range units {
 				switch rng.Intn(6) {
 				case 0:
@@ -622,7 +669,7 @@ func (k *checker) randomRecords() error {
 				}
 			}
 			lit = jsx.StrLit(units)
-			want = map[string]any{"k": "str", "s": units}
+			rec.Kind, rec.S = "str", &units
 		}
 		v, err := vm.Call("RUN11", nil, "JSON.stringify("+lit+")")
 		if err != nil {
@@ -636,27 +683,73 @@ func (k *checker) randomRecords() error {
 			k.c.Violate("JSON.stringify("+lit+") did not return a string: "+v.String(), map[string]any{"js": "JSON.stringify(" + lit + ")"})
 			continue
 		}
-		if o.V.S == nil {
-			o.V.S = []int{}
-		}
-		// parse the text back on the implementation and record the value
+		rec.Got = o.V.S
 		v2, err := vm.Call("RUN11", nil, "JSON.parse(JSON.stringify("+lit+"))")
 		if err != nil {
 			return err
 		}
-		var back any
+		var back struct {
+			Thr string          `json:"thr"`
+			V   json.RawMessage `json:"v"`
+		}
 		if err := json.Unmarshal([]byte(v2.String()), &back); err != nil {
 			return err
 		}
-		p := &pending{Got: o.V.S, Want: [][]int{}}
-		k.mu.Lock()
-		p.ID = len(k.queue) + 1
-		k.queue = append(k.queue, p)
-		k.rnd = append(k.rnd, rndRec{id: p.ID, want: want, back: back})
-		k.mu.Unlock()
+		if back.Thr != "" {
+			k.c.Violate("JSON.parse(JSON.stringify("+lit+")) throws "+back.Thr, map[string]any{"js": "JSON.parse(JSON.stringify(" + lit + "))"})
+			continue
+		}
+		rec.Back = back.V
+		k.enqueue(rec)
 		atomic.AddInt64(&k.n.rand, 1)
 	}
 	return nil
+}
+
+// selfTest demonstrates the binding: the kept cases are replayed against
+// deliberately wrong JSON adapters; every mutant must be rejected by at least
+// one case (BUILDING.md, definition of done 3).
+func (k *checker) selfTest() (map[string]any, error) {
+	res := map[string]any{}
+	for _, m := range mutants {
+		box, plain := &vmBox{extra: m.JS}, &vmBox{}
+		rejected, total := 0, 0
+		first := ""
+		for _, raw := range k.kept {
+			var l Line
+			if json.Unmarshal(raw, &l) != nil {
+				continue
+			}
+			src, consts, err := gen.Render(l.Js)
+			if err != nil {
+				continue
+			}
+			// only cases the unchanged runtime passes without the judge are replayed
+			cls0, _, err := classify(plain, &l, src, consts)
+			if err != nil {
+				return nil, err
+			}
+			if cls0 != "conform" {
+				continue
+			}
+			total++
+			cls, _, err := classify(box, &l, src, consts)
+			if err != nil {
+				return nil, err
+			}
+			if cls != "conform" && cls != "dev" { // dev: the member order of parse results varies from run to run
+				rejected++
+				if first == "" {
+					first = src
+				}
+			}
+		}
+		res[m.Name] = map[string]any{"cases_replayed": total, "rejected": rejected, "first_rejected": first}
+		if rejected == 0 {
+			return nil, fmt.Errorf("binding self-test: the wrong adapter %q was not rejected by any of %d cases", m.Name, total)
+		}
+	}
+	return res, nil
 }
 
 func trunc(s string, n int) string {
